@@ -16,7 +16,10 @@ def main():
     import real_run
     from run_suite import canon_vars
 
-    path = real_run.write_file("job.csv", req["recs"])
+    if req.get("sheets"):
+        path = real_run.write_xlsx("book.xlsx", req["sheets"]) + "#" + req["sheet"]
+    else:
+        path = real_run.write_file(req.get("fname", "job.csv"), req["recs"])
     text = req["text"].replace("$FILE", "$" + path)
     out, _ = real_run.run_single(text, "collect", policy=req.get("policy", ["collect", "print"]))
     res = {k: out.get(k) for k in ("lines", "printouts", "errors", "parse_error", "raised", "headers")}
